@@ -269,6 +269,15 @@ def cases(ctx, with_ctcs, big):
     yield "twins", dict(root=F("P", [R(1, 1, [F("Ab"), F("aB")]), R(0, 1, [F("AB")]), R(1, 1, [F("ab")])]), ctcs=[])
     yield "twins", dict(root=F("P", [R(2, 2, [F("Ab", [R(1, 1, [F("x")])]), F("aB", [R(1, 1, [F("X")]), R(0, 1, [F("y")])])]),
                                      R(0, 1, [F("AB"), F("ab")])]), ctcs=[])
+    for m in gen.big_models():
+        yield "big", dict(root=m["root"], ctcs=m["ctcs"] if with_ctcs else [])
+    # groups around the 53 bits of a double and the 256 shared int objects: or, select-all and [2..*] over leaves
+    for width in (53, 54, 64, 256, 257):
+        kids = [F(f"w{i}") for i in range(width)]
+        yield "wide", dict(root=F("W", [R(1, width, kids)]), ctcs=[])
+        yield "wide", dict(root=F("W", [R(width, width, [F(f"v{i}") for i in range(width)]), R(0, 1, [F("o")])]), ctcs=[])
+        if "star" in big:
+            yield "wide", dict(root=F("W", [R(2, -1, [F(f"u{i}") for i in range(width)])]), ctcs=[])
     kinds = ("mandatory", "optional", "alternative", "or", "mutex", "card", "nn", "zero")
     nrand = 250 if tier == "quick" else 3000
     for i in range(nrand):
